@@ -292,7 +292,49 @@ def clause_e(ctx, P):
                                                                          "DnsCache::evict_expired_addr"])
 
 
+def clause_f(ctx, P):
+    """'only when true': evict_expired_services reports an instance only because its PTR expired or its last SRV
+    expired — never because some other record type ran out"""
+    f = P.one("DnsCache::evict_expired_services")
+    sites = []
+    for g in [f] + [P.fns[c] for c in P.closures_of.get(f.name, [])]:
+        tr = tracer(P, g)
+        for b, t in g.calls():
+            if not name_matches(cname(t), "HashSet::insert"):
+                continue
+            recv = arg_expr(tr, g, b, t, 0)
+            if not any(x[0] == "call" and method(strip_generics(x[1])) in ("or_insert_with", "or_default", "or_insert") for x in walk(recv)):
+                continue
+            sites.append((g, b, t))
+    ctx.require(len(sites) >= 2, "C05f.anchor", f.name, f.loc(), "%d insertions into the result of evict_expired_services" % len(sites))
+    for k, (g, b, t) in enumerate(sites):
+        if g is f:
+            # in the body: only under `is_empty()` of the vector fetched from self.srv
+            edges = guard_edges(P, g, lambda atom, outcome, bb: atom[0] == "call" and name_matches(strip_generics(atom[1]), "Vec::is_empty") and outcome is True and
+                                any(x[0] == "call" and method(strip_generics(x[1])) in ("get_mut", "get") and len(x[2]) >= 1 and
+                                    any(is_field_expr(y, "srv", "DnsCache") for y in strip(x[2][0])) for x in walk(atom)))
+            ok = bool(edges) and must_pass_edges(g, b, edges)
+            why = "reported only when the vector fetched from DnsCache.srv became empty"
+        else:
+            # in a closure: the retain over the PTR records, under is_expired(now) == true
+            edges = guard_edges(P, g, lambda atom, outcome, bb: atom[0] == "call" and method(strip_generics(atom[1])) == "is_expired" and outcome is True)
+            ok = bool(edges) and must_pass_edges(g, b, edges)
+            # the closure is the predicate of a retain on the PTR vector being iterated
+            parent_ok = False
+            trf = tracer(P, f)
+            for bb, tt in f.calls():
+                if method(cname(tt)) == "retain" and any(x[0] == "closure" and x[1] == g.name for a in tt["args"][1:] for x in walk(trf.operand(a, endpos(f, bb)))):
+                    base = iter_base(arg_expr(trf, f, bb, tt, 0))
+                    recv = arg_expr(trf, f, bb, tt, 0)
+                    parent_ok = expr_mentions_field(recv, "ptr", "DnsCache") and not any(expr_mentions_field(recv, m, "DnsCache") for m in ("txt", "srv", "addr", "nsec"))
+            ok = ok and parent_ok
+            why = "reported only for an expired record of the PTR vector (retain predicate over DnsCache.ptr)"
+        ctx.ob("C05f.removal-only-for-ptr-or-srv", "%s|result.insert#%d" % (f.name, k + 1), ok, g.loc(b),
+               why if ok else "an instance is put into the removal set without its PTR or its last SRV having expired")
+
+
 def run(ctx, P):
+    clause_f(ctx, P)
     clause_ab(ctx, P)
     clause_c(ctx, P)
     clause_d(ctx, P)
